@@ -24,6 +24,14 @@ inductive Phase where
 def Phase.name : Phase → String
   | .s => "s" | .l => "l" | .g => "g"
 
+/-- The phase LABELS the handles accept: `getattr(handle, label)` — the slots `s`, `l`, `g` and the alias properties
+`PhaseHandle.S` (→ `s`) and `PhaseHandle.L` (→ `l`, the label of a second liquid phase).  Any other label is an
+`AttributeError`. -/
+def phaseOfLabel : String → Option Phase
+  | "s" => some .s | "l" => some .l | "g" => some .g
+  | "S" => some .s | "L" => some .l
+  | _ => none
+
 inductive Err where
   | typeError
   deriving DecidableEq, Repr
